@@ -72,7 +72,24 @@ def nonempty_graph_starts(frames: list) -> int:
     return n
 
 
+def _raises(res: dict) -> set:
+    out = set()
+    for rec in res["paths"]:
+        if rec["writer"][0] == "raise":
+            out.add(("writer", rec["writer"][1]))
+        for key, r in rec.get("readers", {}).items():
+            if r[0] == "raise":
+                out.add((key, r[1]))
+    return out
+
+
 def run(prog, job: dict) -> dict:
+    from .. import tunables
+
+    return tunables.scaled_or_plain(_run, prog, job, _raises)
+
+
+def _run(prog, job: dict) -> dict:
     """job: integ, physical, name, stmts, preset, delimited, frame_size, logical, via, parsers, namespaces"""
     integ = job["integ"]
     physical = job["physical"]
